@@ -319,7 +319,7 @@ def run(rep, tier_, rng):
     for c in calls.values():
         regimes[c["fn"] + ":" + c["regime"]] = regimes.get(c["fn"] + ":" + c["regime"], 0) + 1
     run_and_report(rep, insts, calls, tag="C36_%s" % tier_, params={"sentence_timeout": 60, "single_timeout": 80},
-                   budget=max(30, (135 if q else 1100) - tgen),
+                   budget=max(30, (115 if q else 1100) - tgen), jobs=10,
                    rule="each evaluation = one call of chebyfit / fourier / fourierval of the current /repo code: chebyfit on random "
                         "polynomials (degree < N <= 12, rational coefficients, rational interval inside [-2,2]) with and without error=True, "
                         "and on exp(cx), sin(cx), 1/(x+c+2) with error=True; fourier on planted trigonometric polynomials (degree <= N <= 8, "
